@@ -374,12 +374,20 @@ def run_features(features, config, reg):
 _LAST_LOG = []
 
 
+
+def _run_tag():
+    """pid of the DRIVER process of this run (workers are its forked children): scratch directories carry it, so that
+    two runs of this check at the same time (evaluations of several trees) do not see each other's directories"""
+    import multiprocessing
+    return os.getpid() if multiprocessing.current_process().name == "MainProcess" else os.getppid()
+
+
 class Sandbox(object):
     """fresh directory under /dev/shm holding the rendered documents; cwd = <root>/run"""
     FILES = ("features/a.feature", "features/sub/b.feature")
 
     def __init__(self, dockeys):
-        self.root = tempfile.mkdtemp(prefix="verif-c10-", dir=SHM)
+        self.root = tempfile.mkdtemp(prefix="verif-c10-%d-" % _run_tag(), dir=SHM)
         self.oldcwd = os.getcwd()
         self.docs = []
         self.abs = []
@@ -1117,5 +1125,5 @@ def run(ctx):
 
     ctx.guard(len(ctx.nt) > (1500 if ctx.quick else 50000), "enough distinct non-trivial selections")
     ctx.guard(len(ctx.outcomes) > (150 if ctx.quick else 1500), "enough distinct selected sets observed")
-    left = [d for d in os.listdir(SHM) if d.startswith("verif-c10-")]
+    left = [d for d in os.listdir(SHM) if d.startswith("verif-c10-%d-" % _run_tag())]
     ctx.guard(not left, "no sandbox directory left behind under /dev/shm (%d found)" % len(left))
